@@ -178,5 +178,7 @@ def run(ctx, rep):
     r20b(ctx, rep)
     r20c(ctx, rep)
     tables.r11f(ctx, rep, rule="R20d")
+    from . import C06
+    C06.r06a_restricted(ctx, rep, "R20p", ["marwood::syntax::"], "neither highlighter call panics", 6)
     rep.not_decided += ["the counter arithmetic (that the count is zero exactly at the properly nested partner) and the byte-indexed cursor lookup (value-level)",
                         "panic-freedom of highlight/highlight_check (C06's inventory covers their bodies)"]
